@@ -699,6 +699,140 @@ theorem C12_gen_skel_SetObjNames : ObjFilter.skel_SetObjNames = [
 
 end GenTie
 
+/-! ## Statement audit (round 4): the error branches and the state invariant behind `List.modify` -/
+
+/-- **Option errors, both directions.**  A run ends with the setter's option error exactly when some option value is
+    not acceptable (negative `objno`, `multiobj` other than 0/1) - whatever the file contains. -/
+theorem C12_invalid_option (ops : List OptOp) (n : Nat) (segs : List Seg) :
+    readNL ops n segs = .error .invalidOption ↔ ¬ validOpts ops := by
+  constructor
+  · intro h hv
+    simp only [readNL] at h
+    cases hh : onHeader {} ops n with
+    | ok st0 =>
+      simp only [hh] at h
+      have := readSegs_error _ _ _ h
+      simp at this
+    | error e =>
+      simp only [hh] at h; simp at h; subst h
+      simp only [onHeader] at hh
+      cases hp : parseOpts { ({} : Solver) with optsRead := false } ops with
+      | error e' =>
+        obtain ⟨_, hbad⟩ := parseOpts_error _ _ _ hp
+        rcases hbad with ⟨v, hv1, hv2⟩ | ⟨v, hv1, hv2⟩
+        · have := hv.1 v hv1; omega
+        · have := hv.2 v hv1; omega
+      | ok s1 => simp only [hp] at hh; split at hh <;> simp at hh
+  · intro hnv
+    simp only [readNL, onHeader]
+    cases hp : parseOpts { ({} : Solver) with optsRead := false } ops with
+    | error e' =>
+      have := (parseOpts_error _ _ _ hp).1
+      subst this; rfl
+    | ok s1 =>
+      obtain ⟨_, _, _, _, p5, p6⟩ := parseOpts_ok _ _ _ hp
+      exact absurd ⟨p5, p6⟩ hnv
+
+/-- **Read errors, both directions.**  With acceptable options and an objective number that is not beyond the file,
+    the run fails (with the reader's error) exactly when an `O`/`G` segment carries an index that is not below the
+    header's objective count. -/
+theorem C12_read_error (ops : List OptOp) (n : Nat) (segs : List Seg) :
+    readNL ops n segs = .error .readError ↔
+      (validOpts ops ∧ (∀ k, givenObjno ops = some k → k ≤ n) ∧ ∃ sg ∈ segs, ∃ i, segIdx? sg = some i ∧ n ≤ i) := by
+  constructor
+  · intro h
+    simp only [readNL] at h
+    cases hh : onHeader {} ops n with
+    | error e =>
+      simp only [hh] at h; simp at h; subst h
+      simp only [onHeader] at hh
+      cases hp : parseOpts { ({} : Solver) with optsRead := false } ops with
+      | error e' => have := (parseOpts_error _ _ _ hp).1; simp [hp] at hh; subst hh; simp at this
+      | ok s1 => simp only [hp] at hh; split at hh <;> simp at hh
+    | ok st0 =>
+      simp only [hh] at h
+      obtain ⟨_, _, _, _, _, hchk, hv⟩ := header_ok hh
+      refine ⟨hv, ?_, readSegs_error_idx segs st0 _ h⟩
+      intro k hg
+      apply Classical.byContradiction
+      intro hgt
+      apply hchk
+      have hk0 : 0 ≤ k := hv.1 k (List.mem_of_getLast? (by simpa [givenObjno] using hg))
+      refine ⟨?_, by simp [hg]⟩
+      simp only [selK, hg, Option.getD_some]; omega
+  · intro ⟨hv, hk, sg, hsg, i, hi, hge⟩
+    obtain ⟨st0, h0⟩ := C12_accept ops n [] hv hk (by intro sg hsg; simp at hsg)
+    simp only [readNL] at h0 ⊢
+    cases hh : onHeader {} ops n with
+    | error e => simp [hh] at h0
+    | ok st1 =>
+      simp only [hh]
+      cases hr : readSegs n st1 segs with
+      | error e => rw [readSegs_error _ _ _ hr]
+      | ok st' =>
+        have := readSegs_ok_idx segs st1 st' hr sg hsg i hi
+        omega
+
+/-- **The objective slots.**  At every successful end of reading the problem holds exactly `resulting_nobj` objectives;
+    together with `C12_index_in_range` this is the guard under which the model's `List.modify` (a no-op outside the
+    list) and the code's unchecked `builder_.obj(i)` agree: a kept segment always addresses an existing slot. -/
+theorem C12_slot_count (ops : List OptOp) (n : Nat) (segs : List Seg) (st : St)
+    (h : readNL ops n segs = .ok st) :
+    st.objs.length = resultingNObj (selMulti ops) (selK ops) n := by
+  simp only [readNL] at h
+  cases hh : onHeader {} ops n with
+  | error e => simp [hh] at h
+  | ok st0 =>
+    simp only [hh] at h
+    obtain ⟨_, _, _, _, hobjs, _, _⟩ := header_ok hh
+    rw [readSegs_length segs st0 st h, hobjs, List.length_replicate]
+
+-- non-trivial instances of the hypotheses / both directions
+section AuditExamples
+/-- three objectives used in the examples: `min e1`, `max e2 + 3 x0`, `min x1` -/
+def exObjs : List Obj := [⟨false, 1, []⟩, ⟨true, 2, [(0, 3)]⟩, ⟨false, 0, [(1, 1)]⟩]
+-- C12_select / C12_echo / C12_names / C12_slot_count: a run that delivers (objno=2 of 3, multiobj=1 also given)
+example : ∃ st, readNL [.multi 1, .objno 2] 3 (encode exObjs) = .ok st ∧ delivered st = [⟨true, 2, [(0, 3)]⟩] ∧
+    solObjnoLine st = 1 ∧ objRowIdx 4 st = [5] ∧ st.objs.length = 1 := ⟨_, rfl, by decide, by decide, by decide, by decide⟩
+-- C12_unselected_inert: two different files that agree on objective 2 (segments of objectives 1 and 3 differ, order differs)
+example : ∃ st st', readNL [.objno 2] 3 (encode exObjs) = .ok st ∧
+    readNL [.objno 2] 3 [Seg.G 1 [(0, 3)], Seg.O 2 true 9, Seg.other, Seg.O 1 true 2, Seg.O 0 true 7, Seg.G 0 [(5, 5)]] = .ok st' ∧
+    delivered st = delivered st' ∧ delivered st = [⟨true, 2, [(0, 3)]⟩] := ⟨_, _, rfl, rfl, by decide, by decide⟩
+-- C12_reject (⇐ of the pair): valid options, objno 4 of 3;   C12_reject_only (⇒): the error does occur and the number is beyond
+example : validOpts [.multi 1, .objno 4] ∧ givenObjno [.multi 1, .objno 4] = some 4 ∧
+    readNL [.multi 1, .objno 4] 3 (encode exObjs) = .error .objnoOutOfRange := by
+  refine ⟨⟨?_, ?_⟩, by decide, rfl⟩ <;> (intro v hv; simp [objnoVals, multiVals] at hv; omega)
+-- C12_accept: valid options, number within range, indices in range - and a model is delivered
+example : validOpts [.objno 3, .multi 0] ∧ (∀ k, givenObjno [.objno 3, .multi 0] = some k → k ≤ (3 : Nat)) ∧
+    (∀ sg ∈ encode exObjs, ∀ i, segIdx? sg = some i → i < 3) ∧ ∃ st, readNL [.objno 3, .multi 0] 3 (encode exObjs) = .ok st := by
+  refine ⟨⟨?_, ?_⟩, ?_, encode_idx exObjs, ⟨_, rfl⟩⟩
+  · intro v hv; simp [objnoVals] at hv; omega
+  · intro v hv; simp [multiVals] at hv; omega
+  · intro k hk; simp [givenObjno, objnoVals] at hk; omega
+-- C12_invalid_option, both directions
+example : ¬ validOpts [.objno 1, .multi 2] ∧ readNL [.objno 1, .multi 2] 3 (encode exObjs) = .error .invalidOption := by
+  refine ⟨?_, rfl⟩
+  intro h; have := h.2 2 (by simp [multiVals]); omega
+example : validOpts [.objno 1] ∧ readNL [.objno 1] 3 (encode exObjs) ≠ .error .invalidOption := by
+  refine ⟨⟨?_, ?_⟩, ?_⟩
+  · intro v hv; simp [objnoVals] at hv; omega
+  · intro v hv; simp [multiVals] at hv
+  · intro h
+    obtain ⟨st, hst⟩ : ∃ st, readNL [.objno 1] 3 (encode exObjs) = .ok st := ⟨_, rfl⟩
+    rw [hst] at h; cases h
+-- C12_read_error, both directions (an `O` segment with index 3 in a file that declares 3 objectives)
+example : readNL [] 3 (encode exObjs ++ [Seg.O 3 false 4]) = .error .readError := rfl
+example : readNL [] 3 (encode exObjs) ≠ .error .readError := by
+  intro h
+  obtain ⟨st, hst⟩ : ∃ st, readNL [] 3 (encode exObjs) = .ok st := ⟨_, rfl⟩
+  rw [hst] at h; cases h
+-- C12_index_in_range: a kept segment in single mode (k = 2, idx = 1, n = 3) and in multi mode
+example : needObj false 2 1 = true ∧ resultingObjIndex false 1 < resultingNObj false 2 3 := by decide
+example : needObj true 1 2 = true ∧ resultingObjIndex true 2 < resultingNObj true 1 3 := by decide
+-- hypotheses of the generated-tie theorems: the default and a given objective number are in range
+example : rawInRange (-1) ∧ rawInRange 5 := by constructor <;> (constructor <;> decide)
+end AuditExamples
+
 /-! ### non-vacuity: concrete runs of the model -/
 
 -- three objectives, objno=2: exactly the second one, echo 1
